@@ -337,6 +337,30 @@ def check_reserved_names(prog, check):
                  'reserved variable names include %s' % want if want in srcs else 'reserved variable names no longer include ' + want,
                  'a variable named like a %s' % {'k': 'time index k', 'keywords': 'Python keyword',
                                                  'builtins': 'builtin', 'math': 'math function'}[want])
+    # the providers return re-usable containers: a one-shot iterator is exhausted by the first membership test
+    for pname in ('get_invalid_variable_names', 'get_invalid_tokens'):
+        ds = prog.definitions_of(pname)
+        if len(ds) != 1:
+            raise AnalysisError('%s: %d definitions' % (pname, len(ds)))
+        pf = ds[0]
+        check.saw(pf)
+        for r in [x for x in ast.walk(pf.node) if isinstance(x, ast.Return) and x.value is not None]:
+            v = r.value
+            ok = False
+            if isinstance(v, ast.Call) and call_name(v) in ('list', 'set', 'tuple', 'frozenset', 'sorted'):
+                ok = True
+            elif isinstance(v, (ast.List, ast.Tuple, ast.Set, ast.ListComp, ast.SetComp)):
+                ok = True
+            elif isinstance(v, ast.BinOp) and isinstance(v.op, ast.Add):
+                ok = True
+            elif isinstance(v, ast.Name):
+                srcs = [a.value for a in ast.walk(pf.node) if isinstance(a, ast.Assign) and any(isinstance(t, ast.Name) and t.id == v.id for t in a.targets)]
+                ok = bool(srcs) and all(isinstance(x, (ast.List, ast.ListComp, ast.Tuple, ast.Set, ast.BinOp)) or
+                                        (isinstance(x, ast.Call) and call_name(x) in ('list', 'set', 'tuple', 'sorted', 'frozenset')) for x in srcs)
+            check.ob('C11.R3', '%s::returns-container' % pf.key, ok, '%s:%d' % (pf.module.rel, r.lineno),
+                     'returns a list/set: membership can be tested repeatedly' if ok else
+                     'returns `%s`: a lazy iterator is exhausted by the first `in` test, every later reserved name passes' % unparse(v)[:80],
+                     'a reserved token that is not the first token checked (second equation, or after an ordinary variable)')
     # ValidateInputs: raise NameError on a reserved LHS for every equation and on a reserved token
     vs = prog.definitions_of('ValidateInputs')
     if len(vs) != 1:
